@@ -226,6 +226,8 @@ func c13Configs(thorough bool) []qcfg {
 		{name: "E|E|D", threads: [][]qop{{E(1)}, {E(2)}, {D}}},
 		{name: "E|D|D", threads: [][]qop{{E(1)}, {D}, {D}}},
 		{name: "E|D|D/1", pre: []int{9}, threads: [][]qop{{E(1)}, {D}, {D}}},
+		{name: "D|D/2", pre: []int{8, 9}, threads: [][]qop{{D}, {D}}},
+		{name: "E|E|D,D", threads: [][]qop{{E(1)}, {E(2)}, {D, D}}},
 	}
 	if thorough {
 		cfgs = append(cfgs,
